@@ -75,11 +75,14 @@ def _worker(pid, tier, jobs, timeout_s, want_samples):
             r = core.run_seed(prop, seed, tier, faulty, keep_trace=want_samples and len(out) < 1)
         except core.HarnessError:
             raise
+        finally:
+            _HISTORY.append((seed, faulty))
         d = {"seed": seed, "faulty": faulty, "digest": r.digest, "nsteps": r.nsteps, "stats": r.stats,
              "probes": r.probes, "fired": r.fired, "fs_states": r.fs_states, "shape": r.shape,
              "nontrivial": r.nontrivial, "violation": r.violation, "prims": r.prims, "wall": r.wall}
         if r.violation:
             d["trace"] = r.trace
+            d["history"] = list(_HISTORY)
         elif r.trace is not None:
             d["sample"] = r.trace
         out.append(d)
@@ -88,6 +91,7 @@ def _worker(pid, tier, jobs, timeout_s, want_samples):
 
 
 _PROP_CACHE = {}
+_HISTORY = []   # every (seed, faulty) this worker process has executed so far, in order
 
 
 def run_batch(pid, tier, jobs, workers, chunk, timeout_s, wall_cap):
@@ -254,21 +258,62 @@ def cmd_check(args):
     os.makedirs(rdir, exist_ok=True)
     for (clause, sig), rs in new:
         rs.sort(key=lambda r: len(r["trace"]["steps"]))
+        budget = 60.0 if tier == "quick" else 180.0
+        mini = None
+        # (1) a candidate that reproduces on its own in a pristine process image (the batch ran many runs per
+        #     worker process; a violation that needs state left by earlier runs does not reproduce alone)
+        for cand in (rs[:4] + rs[-8:] if len(rs) > 12 else rs):
+            r1 = core.replay(prop, cand["trace"])
+            if core.same_class(r1.violation, cand["trace"]["violation"]):
+                mini, _ok = core.minimise(prop, cand["trace"], budget_s=budget)
+                break
+        # (2) otherwise reproduce it as a history of runs in one process and minimise over whole runs
+        if mini is None:
+            cand = rs[0]
+            hist = [list(j) for j in cand["history"]]
+            target = cand["trace"]["violation"]
+
+            def fails(jobs):
+                r2 = core.isolated(core.run_history, prop, jobs, tier)
+                return r2 is not None and core.same_class(r2.violation, target)
+
+            if not fails(hist):
+                print("HARNESS-ERROR: violation %s/%s (seed %d) reproduces neither alone nor with its process history" % (
+                    clause, sig, cand["seed"]))
+                return 2
+            last, prefix = hist[-1], hist[:-1]
+            deadline = time.monotonic() + budget
+            n = 2
+            while len(prefix) >= 1 and time.monotonic() < deadline:
+                chunk = max(1, len(prefix) // n)
+                reduced = False
+                for i in range(0, len(prefix), chunk):
+                    c2 = prefix[:i] + prefix[i + chunk:]
+                    if fails(c2 + [last]):
+                        prefix, reduced, n = c2, True, max(n - 1, 2)
+                        break
+                if not reduced:
+                    if chunk == 1:
+                        break
+                    n = min(len(prefix), n * 2)
+            mini = {"property": pid, "tier": tier, "history": prefix + [last], "violation": target, "seed": cand["seed"],
+                    "note": "depends on process-global state left behind by the earlier runs of this history; "
+                            "every run is regenerated from its seed", "steps": cand["trace"]["steps"]}
         trace = rs[0]["trace"]
-        mini, ok = core.minimise(prop, trace, budget_s=60.0 if tier == "quick" else 180.0)
-        path = os.path.join(rdir, "%s-%s-%d.json" % (pid, _slug(clause + "-" + sig), trace["seed"]))
+        path = os.path.join(rdir, "%s-%s-%d.json" % (pid, _slug(clause + "-" + sig), mini.get("seed", trace["seed"])))
         with open(path, "w") as f:
             json.dump(mini, f, indent=1, default=str)
         # the replay file must reproduce in a fresh interpreter before it is reported
         p = subprocess.run([os.path.join(VERIF, "bin", "check"), pid, "--replay", path, "--quiet"],
-                           capture_output=True, text=True, timeout=600)
+                           capture_output=True, text=True, timeout=900)
         if p.returncode != 1:
             print("HARNESS-ERROR: replay of %s did not reproduce in a fresh interpreter (rc=%d)\n%s\n%s" % (
                 path, p.returncode, p.stdout[-2000:], p.stderr[-2000:]))
             return 2
         v = mini["violation"]
-        print("violation clause=%s sig=%s runs=%d steps=%d (from %d)\n  %s" % (
-            clause, sig, len(rs), len(mini["steps"]), len(trace["steps"]), v["detail"][:1500]))
+        print("violation clause=%s sig=%s runs=%d steps=%d (from %d)%s\n  %s" % (
+            clause, sig, len(rs), len(mini["steps"]), len(trace["steps"]),
+            " history=%d runs" % len(mini["history"]) if "history" in mini else "", v["detail"][:1500]))
         print("VIOLATION property=%s replay=%s" % (pid, path), flush=True)
         rc = 1
     wall = time.monotonic() - t0
@@ -292,7 +337,12 @@ def cmd_replay(args):
         trace = json.load(f)
     pid = trace["property"]
     prop = load_prop(pid)
-    r = core.replay(prop, trace)
+    if hasattr(prop, "warmup"):
+        prop.warmup()
+    if "history" in trace:
+        r = core.isolated(core.run_history, prop, [tuple(j) for j in trace["history"]], trace.get("tier", "quick"))
+    else:
+        r = core.replay(prop, trace)
     if r.violation:
         if not args.quiet:
             print("replayed %d steps: clause=%s sig=%s\n  %s" % (len(trace["steps"]), r.violation["clause"],
